@@ -27,3 +27,16 @@ Lemma product_sites_present_proof :
   /\ length (filter product_site dense_sites) = 3%nat.
 Proof. vm_compute. split; reflexivity. Qed.
 
+Lemma inplace_writes_private_proof : writes_reviewedb = true.
+Proof. vm_compute. reflexivity. Qed.
+
+(* the private copies the coordinate-arithmetic functions work on are part of the reviewed table *)
+Lemma coordinate_arithmetic_on_copies_proof :
+  forallb (fun r => existsb (fun s => write_matches s r) inplace_sites)
+    [mkRW "_coo/common.py" "flip" "new_coords" "x.coords.copy()" WFresh;
+     mkRW "_coo/common.py" "roll" "coords" "np.copy(a.coords)" WFresh;
+     mkRW "_coo/common.py" "_sort_coo" "data" "data.copy()" WFresh;
+     mkRW "_coo/common.py" "_sort_coo" "result_indices" "np.empty_like(sort_coords)" WFresh;
+     mkRW "_coo/common.py" "_arg_minmax_common" "<argument 0 of _compute_minmax_args>" "x.coords.copy()" WFresh;
+     mkRW "_coo/common.py" "_arg_minmax_common" "<argument 1 of _compute_minmax_args>" "x.data.copy()" WFresh] = true.
+Proof. vm_compute. reflexivity. Qed.
